@@ -430,10 +430,12 @@ func c20States(w *harness.World) []c20State {
 	hdr.Time = hdr.Time.Add(30 * time.Second)
 	hdr.Height++
 	large = large.WithBlockHeader(hdr)
+	// a recorded vesting account that has moved all of its vesting coins away (original vesting empty)
+	emptied := must(pop, vtypes.NewMsgMoveAvailableVesting(harness.AddrS("R1"), harness.AddrS("R2")))
 	// the mint denomination was just switched to one nobody holds, under an open-ended exponential period
 	fresh := must(root, &mtypes.MsgUpdateParams{Authority: harness.GovAuthority(), MintDenom: "ufresh", StartTime: harness.T0,
 		Minters: mintCfg{Periods: []mp{{Kind: ref.ExpStep, Amount: "100", Step: 10 * time.Second, Mult: "0.5"}}}.Params().Minters})
-	return []c20State{{"empty", root}, {"populated", pop}, {"pool-with-removed-vesting-type", typeless}, {"matured-pools-summing-above-int64", large}, {"mint-denom-without-supply", fresh}}
+	return []c20State{{"empty", root}, {"populated", pop}, {"pool-with-removed-vesting-type", typeless}, {"matured-pools-summing-above-int64", large}, {"mint-denom-without-supply", fresh}, {"recorded-account-emptied", emptied}}
 }
 
 func runC20(rc *RunCtx) {
@@ -554,7 +556,7 @@ func runC20(rc *RunCtx) {
 	rc.Level = "exploration"
 	rc.Cov = map[string]interface{}{
 		"evaluations": int(st.inputs)*len(ws[0].states) + nq, "states": len(ws[0].states), "distinct_nontrivial": int(st.handlerRuns),
-		"rule":    "full product of the per-field boundary alphabets for every message type (17) x 5 states (empty, populated, pool whose vesting type was removed, two matured pools whose remainders sum above int64, mint denomination without supply); every input goes through a protobuf marshal -> (optional field omission) -> unmarshal/UnpackInterfaces round trip, inputs that cannot be decoded are counted as unreachable; then ValidateBasic and, if it passes, the handler from the real router (msg server for cfesignature), each under recover(). Queries: every query of the four modules with nil request and the product of its field alphabets in each state. The thorough tier adds every state reachable by at most 3 of 12 set-up operations (pools incl. type-less and 5e18 ones, send, withdraw, time past the lock end, vesting-type removal, link and signature, direct creation, split), deduplicated by state digest. Non-trivial = (input, state) pairs whose handler actually ran (ValidateBasic passed).",
+		"rule":    "full product of the per-field boundary alphabets for every message type (17) x 6 states (empty, populated, recorded account that moved everything away, pool whose vesting type was removed, two matured pools whose remainders sum above int64, mint denomination without supply); every input goes through a protobuf marshal -> (optional field omission) -> unmarshal/UnpackInterfaces round trip, inputs that cannot be decoded are counted as unreachable; then ValidateBasic and, if it passes, the handler from the real router (msg server for cfesignature), each under recover(). Queries: every query of the four modules with nil request and the product of its field alphabets in each state. The thorough tier adds every state reachable by at most 3 of 12 set-up operations (pools incl. type-less and 5e18 ones, send, withdraw, time past the lock end, vesting-type removal, link and signature, direct creation, split), deduplicated by state digest. Non-trivial = (input, state) pairs whose handler actually ran (ValidateBasic passed).",
 		"samples": samples, "inputs_per_message": perMsg, "inputs": int(st.inputs), "undecodable_inputs": int(st.undecodable), "rejected_by_validate_basic": int(st.vbRejected),
 		"handler_runs": int(st.handlerRuns), "handler_successes": int(st.handlerOK), "panicking_runs": int(st.panics) + qp, "distinct_panic_sites": len(distinctPanics), "query_evaluations": nq, "exhaustive": true,
 	}
